@@ -95,6 +95,9 @@ def main():
     for ln in r.stdout.splitlines():
         if ln.startswith("RESULT "):
             res = json.loads(ln[7:])
+    if not res.get("checks"):
+        print("CHECKS DID NOT RUN - not kept")
+        sys.exit(2)
     meta["checks_run"] = {c: {"exit": v["exit"], "signatures": v["signatures"]} for c, v in res.get("checks", {}).items()}
     meta["caught_by"] = sorted(c for c, v in res.get("checks", {}).items() if v["exit"] == 1)
     meta["tier"] = tier
